@@ -188,4 +188,20 @@ def run(ctx):
     di = decJ.methods["__init__"]
     bad = [n for n in ast.walk(di.node) if isinstance(n, ast.Call) and isinstance(n.func, ast.Attribute) and n.func.attr == "splitlines"]
     loads = [n for n in ast.walk(di.node) if isinstance(n, ast.Call) and norm(n.func) == "json.loads"]
+    # end of input is a fact about the line iterator, never about a decoded document (the document `null` is None)
+    for m_ in decJ.methods.values():
+        docs = {"self._current"}
+        for n in walk_local(m_.node):
+            if isinstance(n, ast.Assign) and isinstance(n.targets[0], ast.Name) and ("json.loads" in norm(n.value) or "_current" in norm(n.value)):
+                docs.add(n.targets[0].id)
+        for n in walk_local(m_.node):
+            if isinstance(n, ast.Assign) and any(norm(t) == "self.done" for t in n.targets):
+                dep = [d for d in docs if d in norm(n.value)]
+                inst = f"{m_.qualname}: `{norm(n)[:60]}` does not depend on a decoded document"
+                if isinstance(n.value, ast.Constant):
+                    ctx.holds("C15.R9", inst, m_.where(n))
+                elif dep:
+                    ctx.violation("C15.R9", inst, m_.where(n), f"{m_.qualname}: {norm(n)[:80]}", "the decoded value of a line can be None (the JSON document `null` is the encoding of a null datum): taking it for the end of the input drops that record and every record after it")
+                else:
+                    ctx.unrecognised("C15.R9", inst, m_.where(n), "end-of-input flag computed from an expression of unknown origin")
     ctx.check("C15.R9", "reader: json.loads per line of the file object; no str.splitlines", bool(loads) and not bad, di.where(bad[0]) if bad else di.where(), f"AvroJSONDecoder.__init__: {[norm(b)[:60] for b in bad]}", "str.splitlines() also splits on U+0085, U+2028, U+2029 (and \\x1c-\\x1e), which may occur raw inside a JSON string: a document the writer produced is cut in the middle")
